@@ -365,8 +365,7 @@ class C16(Campaign):
         """Fault: the same script is executed a second time in 'w' mode in a directory that still holds the files of the
         first execution.  Whatever the observers are handed (paths or file objects), the files must end up exactly as
         after a fresh run: one header plus one line / one frame per call, one restart document."""
-        if sc["files"].get("logging_mode") != "w":
-            return
+        mode = sc["files"].get("logging_mode", "a")
         from simkit.simfs import SimFile
 
         res = self.res
@@ -375,7 +374,7 @@ class C16(Campaign):
             return
         d2 = SimDisk(bufsize=sc.get("bufsize", 8192))
         for n, text in final.items():
-            f = SimFile(d2, n, "w", durable=text)
+            f = SimFile(d2, n, mode, durable=text)
             f._closed = True
             d2.files[n] = f
         _, w2, _rec = self._deploy(sc, disk=d2)
@@ -385,12 +384,22 @@ class C16(Campaign):
         res.count("evaluations")
         for n, text in final.items():
             got = d2.files[n].durable
-            if got != text:
-                role = {v["name"]: k for k, v in sc["files"].items() if isinstance(v, dict)}.get(n, n)
-                how = sc["files"].get(role, {}).get("as", "?") if isinstance(sc["files"].get(role), dict) else "?"
-                self._v("stale_content_survives_w_mode", f"file={ROLE_SHORT.get(role, role)}|given_as={how}",
-                        f"second execution in 'w' mode over the files of the first: {n} holds {len(got)} characters, a fresh "
-                        f"run gives {len(text)}; starts with {got[:80]!r}", "rerun")
+            role = {v["name"]: k for k, v in sc["files"].items() if isinstance(v, dict)}.get(n, n)
+            how = sc["files"].get(role, {}).get("as", "?") if isinstance(sc["files"].get(role), dict) else "?"
+            if mode == "w":
+                if got != text:
+                    self._v("stale_content_survives_w_mode", f"file={ROLE_SHORT.get(role, role)}|given_as={how}",
+                            f"second execution in 'w' mode over the files of the first: {n} holds {len(got)} characters, a fresh "
+                            f"run gives {len(text)}; starts with {got[:80]!r}", "rerun")
+            elif role in ("logfile", "trajectory"):
+                # append mode: what the first execution wrote stays, followed by exactly what a run writes into an
+                # empty file (its header and one line per call / one frame per call)
+                if got != text + text:
+                    what = "earlier_bytes_changed" if not got.startswith(text) else "appended_part_differs_from_a_fresh_run"
+                    self._v("rerun_in_append_mode_" + what, f"file={ROLE_SHORT.get(role, role)}|given_as={how}",
+                            f"second execution in 'a' mode over the files of the first: {n} holds {len(got)} characters, expected "
+                            f"{2 * len(text)} (first execution's bytes + a fresh run's bytes); the appended part starts with "
+                            f"{got[len(text):len(text) + 80]!r}", "rerun")
 
     def _resume_and_crash(self, sc, disk, calls):
         """A later process resumes from the restart file, re-using the same paths in append mode, and dies at every
